@@ -122,6 +122,32 @@ func roundTrips(v *variants.Variant, via variants.VariantType) bool {
 	return false
 }
 
+var c07Managers = map[bool]variants.IVariantOperations{}
+var c07Scratch = variants.EmptyVariant()
+
+// c07Other: a different value of the same variant type
+func c07Other(v *variants.Variant) *variants.Variant {
+	switch v.Type() {
+	case variants.Integer:
+		return variants.VariantFromInteger(v.AsInteger() ^ 5)
+	case variants.Long:
+		return variants.VariantFromLong(v.AsLong() ^ 5)
+	case variants.Float:
+		return variants.VariantFromFloat(v.AsFloat()/2 + 1)
+	case variants.Double:
+		return variants.VariantFromDouble(v.AsDouble()/2 + 1)
+	case variants.String:
+		return variants.VariantFromString(v.AsString() + "1")
+	case variants.Boolean:
+		return variants.VariantFromBoolean(!v.AsBoolean())
+	case variants.TimeSpan:
+		return variants.VariantFromTimeSpan(v.AsTimeSpan() + 1000000)
+	case variants.DateTime:
+		return variants.VariantFromDateTime(v.AsDateTime().Add(1000000000))
+	}
+	return variants.EmptyVariant()
+}
+
 func runC07(in sx.SX) (sx.SX, string) {
 	l := sx.AsList(in)
 	safe := sx.AsBool(l[0])
@@ -162,6 +188,34 @@ func runC07(in sx.SX) (sx.SX, string) {
 			}
 		}
 		cur = res
+	}
+	// one manager object and one variant object that live through the whole run: the variant is given the value in
+	// place and converted by the long-lived manager - the outcome may not depend on what either did before
+	if fail == "" && len(targets) > 0 {
+		lm := c07Managers[safe]
+		if lm == nil {
+			lm = newManager(safe)
+			c07Managers[safe] = lm
+		}
+		tt := variants.VariantType(sx.AsInt(targets[0]))
+		for round := 0; round < 2 && fail == ""; round++ {
+			c07Scratch.Assign(v)
+			r1, e1 := lm.Convert(c07Scratch, tt)
+			o1, _ := resSX(r1, e1)
+			if sx.Text(o1) != sx.Text(out[0]) {
+				fail = fmt.Sprintf("a manager object and a variant object used before: Convert to %s gives %s, fresh objects give %s", typeNames[tt], sx.Text(o1), sx.Text(out[0]))
+			}
+			// same type, other value, same objects: the next round must see the new value
+			other := c07Other(v)
+			c07Scratch.Assign(other)
+			r2, e2 := lm.Convert(c07Scratch, tt)
+			r3, e3 := newManager(safe).Convert(other, tt)
+			o2, _ := resSX(r2, e2)
+			o3, _ := resSX(r3, e3)
+			if fail == "" && sx.Text(o2) != sx.Text(o3) {
+				fail = fmt.Sprintf("the same variant object given %s in place and converted to %s by the same manager object gives %s, fresh objects give %s", sx.Text(valSX(other)), typeNames[tt], sx.Text(o2), sx.Text(o3))
+			}
+		}
 	}
 	// round trip: value -> T -> type(value)
 	if fail == "" && len(targets) == 2 && len(out) == 2 && int(sx.AsInt(targets[1])) == int(v.Type()) && !safe {
